@@ -278,7 +278,7 @@ class RoundTripMatrix(Bounded):
              "and 255) delivered whole, byte-at-a-time through dataReceived, byte-at-a-time through a "
              "buf+getPacket loop and in 3 seeded random chunkings; a 3-message session (lengths 6,7,21: minimum "
              "padding, maximum padding) in every 2-way split; starting sequence numbers 0 and 5; thorough adds every "
-             "3-way split of a 2-message session for MAC in {none, hmac-sha1}, a 0..80 ladder, and seeded random "
+             "3-way split of a 2-message session, a 0..80 ladder, and seeded random "
              "sessions with payloads up to 32768 bytes")
     functions = ["SSHTransportBase.sendPacket", "SSHTransportBase.getPacket", "SSHTransportBase.dataReceived",
                  "SSHCiphers.setKeys", "SSHCiphers.encrypt", "SSHCiphers.decrypt", "SSHCiphers.makeMAC",
@@ -291,8 +291,7 @@ class RoundTripMatrix(Bounded):
         if tier != "quick":
             for cfg in all_configs():
                 yield cfg + ("ladder", 80, 5)
-                if cfg[1] in (b"none", b"hmac-sha1"):
-                    yield cfg + ("split3", 0, 0)
+                yield cfg + ("split3", 0, 0)
                 for _ in range(3):
                     yield cfg + ("random", rng.randrange(1 << 30), rng.choice((0, 1, 77)))
 
@@ -623,7 +622,7 @@ class VersionExchange(Bounded):
              "CR LF or LF; 3 version lines (2.0, 2.0 with comment, 1.99) ended CR LF or LF; then 0..2 packets from a "
              "real sendPacket incl. payloads containing LF and 'SSH-'; delivered whole, byte-at-a-time, in every 2-way "
              "split, and (streams <= 48 bytes; thorough: all) every 3-way split; thorough adds all ordered pairs of "
-             "lines")
+             "lines (first version line only)")
     functions = ["SSHTransportBase.dataReceived", "SSHTransportBase.getPacket", "SSHTransportBase.connectionMade",
                  "SSHTransportBase.sendPacket"]
 
@@ -641,7 +640,7 @@ class VersionExchange(Bounded):
             if not quick:
                 banners.append((a + b"\n", b + b"\r\n"))
         for banner in banners:
-            for v in VERSION_LINES:
+            for v in (VERSION_LINES if quick or len(banner) < 2 else VERSION_LINES[:1]):
                 for eol in (b"\r\n", b"\n"):
                     for pk in range(len(FIRST_PACKETS)):
                         if quick and len(banner) == 2 and (eol == b"\n" or pk == 2):
